@@ -204,7 +204,9 @@ Builtin(mm, name, args) ==
                 [] v.k \in {"string", "bytes"} -> Ok(h, VInt(Len(v.b)))
                 [] v.k = "map" -> Ok(h, VInt(Len(TableOf(h, v))))
                 [] OTHER -> BadArg)
-    [] name = "copy" -> IF n # 1 THEN WrongArgs ELSE CopyDeep(h, args[1], 0)
+    [] name = "copy" -> IF n # 1 THEN WrongArgs
+                        ELSE IF args[1].k = "builtin" THEN Excluded("copy-of-builtin")   \* not documented
+                        ELSE CopyDeep(h, args[1], 0)
     [] name = "append" ->
          IF n < 2 THEN WrongArgs
          ELSE IF args[1].k # "array" THEN BadArg
@@ -326,7 +328,8 @@ StepEv(P, mm, n) ==   \* mm.ctl already popped
 UnOp(h, op, v) ==
   CASE op = "!" -> Ok(h, VBool(IsFalsy(h, v)))
     [] op = "-" -> IF v.k = "int" THEN OkInt(h, 0 - v.n)
-                   ELSE IF v.k = "float" THEN OkFloat(h, 0 - v.q) ELSE Err("invalid_operation")
+                   ELSE IF v.k = "float" THEN (IF v.q = 0 THEN Excluded("float") ELSE OkFloat(h, 0 - v.q))
+                   ELSE Err("invalid_operation")
     [] op = "^" -> IF v.k = "int" THEN OkInt(h, 0 - v.n - 1) ELSE Err("invalid_operation")
     [] op = "+" -> Ok(h, v)
 
